@@ -11,22 +11,22 @@ Import ListNotations.
 
 (* ================================================================== vocabulary *)
 (* sample b of an operand with batch size B, or its single shared sample when B = 1 *)
-Definition bsel (B b : nat) : nat := if 1 <? B then b else 0.
+Definition bidx (B b : nat) : nat := if 1 <? B then b else 0.
 
-Lemma bsel_skip s V b : b * (thas_batch s * V) = bsel (tbatch s) b * V.
-Proof. unfold thas_batch, bsel. destruct (1 <? tbatch s); lia. Qed.
+Lemma bidx_skip s V b : b * (thas_batch s * V) = bidx (tbatch s) b * V.
+Proof. unfold thas_batch, bidx. destruct (1 <? tbatch s); lia. Qed.
 
-Lemma bsel_ids m b : b * (if 1 <? m then 1 else 0) = bsel m b.
-Proof. unfold bsel. destruct (1 <? m); lia. Qed.
+Lemma bidx_ids m b : b * (if 1 <? m then 1 else 0) = bidx m b.
+Proof. unfold bidx. destruct (1 <? m); lia. Qed.
 
-Lemma bsel_same B b : b < B -> bsel B b = b.
-Proof. unfold bsel. intro H. destruct (Nat.ltb_spec 1 B); lia. Qed.
+Lemma bidx_same B b : b < B -> bidx B b = b.
+Proof. unfold bidx. intro H. destruct (Nat.ltb_spec 1 B); lia. Qed.
 
-Lemma bsel_one b : bsel 1 b = 0.
+Lemma bidx_one b : bidx 1 b = 0.
 Proof. reflexivity. Qed.
 
-Lemma bsel_lt Bx B b : b < B -> Bx = B \/ Bx = 1 -> bsel Bx b < Bx.
-Proof. unfold bsel. intros Hb H. destruct (Nat.ltb_spec 1 Bx); lia. Qed.
+Lemma bidx_lt Bx B b : b < B -> Bx = B \/ Bx = 1 -> bidx Bx b < Bx.
+Proof. unfold bidx. intros Hb H. destruct (Nat.ltb_spec 1 Bx); lia. Qed.
 
 Lemma sample_lt b B f V : b < B -> f < V -> b * V + f < B * V.
 Proof. intros Hb Hf. assert (H : (b + 1) * V <= B * V) by (apply Nat.mul_le_mono_r; lia). lia. Qed.
@@ -235,24 +235,24 @@ Section GatherAdjoint.
   (* the output of the forward program, as a list of n elements *)
   Definition gather (fw : mov) (n : nat) (dx : list T) : list T := map (lookup fw dx) (seq 0 n).
 
-  Fixpoint sumf (h : nat -> T) (l : list nat) : T :=
-    match l with [] => zero | d :: r => add (h d) (sumf h r) end.
+  Fixpoint sum_over (h : nat -> T) (l : list nat) : T :=
+    match l with [] => zero | d :: r => add (h d) (sum_over h r) end.
 
   Lemma add_swap a b c : add a (add b c) = add b (add a c).
   Proof. rewrite !add_assoc. f_equal. apply add_comm. Qed.
 
-  Lemma sumf_perm h l l' : Permutation l l' -> sumf h l = sumf h l'.
+  Lemma sum_over_perm h l l' : Permutation l l' -> sum_over h l = sum_over h l'.
   Proof.
-    induction 1 as [|x l l' _ IH|x y l|l l' l'' _ IH1 _ IH2]; cbn [sumf].
+    induction 1 as [|x l l' _ IH|x y l|l l' l'' _ IH1 _ IH2]; cbn [sum_over].
     - reflexivity.
     - rewrite IH. reflexivity.
     - apply add_swap.
     - rewrite IH1. exact IH2.
   Qed.
 
-  Lemma sumf_ext_in h h' l : (forall d, In d l -> h d = h' d) -> sumf h l = sumf h' l.
+  Lemma sum_over_ext_in h h' l : (forall d, In d l -> h d = h' d) -> sum_over h l = sum_over h' l.
   Proof.
-    induction l as [|x l IH]; intro H; cbn [sumf]; [reflexivity|].
+    induction l as [|x l IH]; intro H; cbn [sum_over]; [reflexivity|].
     rewrite (H x (or_introl eq_refl)), IH; [reflexivity|]. intros d Hd. apply H. right. exact Hd.
   Qed.
 
@@ -275,15 +275,15 @@ Section GatherAdjoint.
     - destruct Hin as [->|Hin]; [congruence|]. apply IH; assumption.
   Qed.
 
-  Lemma gsum_transpose_sumf fw gy dx :
+  Lemma gsum_transpose_sum_over fw gy dx :
     NoDup (map fst fw) ->
-    gsum (transpose fw) gy dx = sumf (fun d => mul (nth d gy zero) (lookup fw dx d)) (map fst fw).
+    gsum (transpose fw) gy dx = sum_over (fun d => mul (nth d gy zero) (lookup fw dx d)) (map fst fw).
   Proof.
     intro Hn.
     assert (G : forall l, incl l fw ->
-              gsum (transpose l) gy dx = sumf (fun d => mul (nth d gy zero) (lookup fw dx d)) (map fst l)).
+              gsum (transpose l) gy dx = sum_over (fun d => mul (nth d gy zero) (lookup fw dx d)) (map fst l)).
     { induction l as [|e l IH]; intro Hi; [reflexivity|].
-      destruct e as [d [k s]]. cbn [transpose map tr gather_sum sumf fst snd].
+      destruct e as [d [k s]]. cbn [transpose map tr gather_sum sum_over fst snd].
       fold (transpose l). rewrite IH by (intros x Hx; apply Hi; right; exact Hx).
       f_equal. unfold lookup.
       pose proof (find_unique fw (d, (k, s)) Hn (Hi _ (or_introl eq_refl))) as F.
@@ -291,11 +291,11 @@ Section GatherAdjoint.
     apply G. apply incl_refl.
   Qed.
 
-  Lemma dot_sumf (y : nat -> T) : forall gy o,
-    dotT gy (map y (seq o (length gy))) = sumf (fun d => mul (nth (d - o) gy zero) (y d)) (seq o (length gy)).
+  Lemma dot_sum_over (y : nat -> T) : forall gy o,
+    dotT gy (map y (seq o (length gy))) = sum_over (fun d => mul (nth (d - o) gy zero) (y d)) (seq o (length gy)).
   Proof.
-    induction gy as [|g gy IH]; intro o; cbn [length seq map dot sumf]; [reflexivity|].
-    rewrite Nat.sub_diag. cbn [nth]. f_equal. rewrite IH. apply sumf_ext_in.
+    induction gy as [|g gy IH]; intro o; cbn [length seq map dot sum_over]; [reflexivity|].
+    rewrite Nat.sub_diag. cbn [nth]. f_equal. rewrite IH. apply sum_over_ext_in.
     intros d Hd. apply in_seq in Hd. replace (d - o) with (S (d - S o)) by lia. reflexivity.
   Qed.
 
@@ -305,9 +305,9 @@ Section GatherAdjoint.
     gsum bw gy dx = dotT gy (gather fw n dx).
   Proof.
     intros Hp Hc Hl. rewrite (gsum_perm _ _ gy dx Hp).
-    rewrite gsum_transpose_sumf by (apply (covers_NoDup _ _ Hc)).
-    rewrite (sumf_perm _ _ _ Hc). unfold gather. subst n. rewrite dot_sumf.
-    apply sumf_ext_in. intros d _. rewrite Nat.sub_0_r. reflexivity.
+    rewrite gsum_transpose_sum_over by (apply (covers_NoDup _ _ Hc)).
+    rewrite (sum_over_perm _ _ _ Hc). unfold gather. subst n. rewrite dot_sum_over.
+    apply sum_over_ext_in. intros d _. rewrite Nat.sub_0_r. reflexivity.
   Qed.
 
   (* LocalAdjoint of a gather-type operator: the backward kernel bw, being the transpose of the
@@ -613,24 +613,24 @@ Section Pick.
     In (d, (k, s)) (pick_fw sx sy ids dim) <->
     exists low high b, low < base /\ high < R /\ b < B /\ k = 0 /\
       d = b * (base * 1 * R) + flat base 1 low 0 high /\
-      s = bsel Bx b * (base * n * R) + flat base n low (nth (bsel (length ids) b) ids 0) high.
+      s = bidx Bx b * (base * n * R) + flat base n low (nth (bidx (length ids) b) ids 0) high.
   Proof.
     unfold pick_fw. rewrite Hbase, pick_repeat, Hby, Hnx, In_flat_map2. split.
     - intros [b [Hb H]]. apply In_flat_map2 in H. destruct H as [i [Hi H]].
       apply In_map_range in H. destruct H as [j [Hj E]]. injection E as Ed Ek Es. subst d k s.
-      exists j, i, b. rewrite bsel_skip, bsel_ids, Hbx, Hvx. unfold flat.
+      exists j, i, b. rewrite bidx_skip, bidx_ids, Hbx, Hvx. unfold flat.
       repeat split; try assumption; ring.
     - intros [low [high [b [Hl [Hh [Hb [-> [-> ->]]]]]]]]. exists b. split; [exact Hb|].
       apply In_flat_map2. exists high. split; [exact Hh|]. apply In_map_range. exists low.
-      split; [exact Hl|]. rewrite bsel_skip, bsel_ids, Hbx, Hvx. unfold flat. f_equal; [ring|]. f_equal. ring.
+      split; [exact Hl|]. rewrite bidx_skip, bidx_ids, Hbx, Hvx. unfold flat. f_equal; [ring|]. f_equal. ring.
   Qed.
 
   Theorem pick_fw_in_bounds : mov_in_bounds (pick_fw sx sy ids dim) [tsize sx].
   Proof.
     mov_forall pick_fw_spec. destruct Hin as [low [high [b [Hl [Hh [Hb [-> [_ ->]]]]]]]].
     cbn [nth]. unfold tsize. rewrite Hvx, Hbx. apply sample_lt.
-    - apply (bsel_lt Bx B b Hb Hbc).
-    - apply flat_lt; [exact Hl| |exact Hh]. apply Hids. apply (bsel_lt _ B b Hb Hic).
+    - apply (bidx_lt Bx B b Hb Hbc).
+    - apply flat_lt; [exact Hl| |exact Hh]. apply Hids. apply (bidx_lt _ B b Hb Hic).
   Qed.
 
   Lemma pick_fw_single : single (pick_fw sx sy ids dim).
@@ -644,7 +644,7 @@ Section Pick.
   Qed.
 
   (* also when gx has batch 1 and gy batch B: forward reads the shared sample for every b, the
-     backward folds the B samples of gy onto it (bsel Bx b = 0) *)
+     backward folds the B samples of gy onto it (bidx Bx b = 0) *)
   Theorem pick_bw_transpose d s :
     In (d, s) (pick_bw sy sx ids dim) <-> In (s, (0, d)) (pick_fw sx sy ids dim).
   Proof. rewrite pick_bw_eq. apply transpose_In. exact pick_fw_single. Qed.
@@ -652,7 +652,7 @@ Section Pick.
   Theorem pick_bw_spec d s :
     In (d, s) (pick_bw sy sx ids dim) <->
     exists low high b, low < base /\ high < R /\ b < B /\
-      d = bsel Bx b * (base * n * R) + flat base n low (nth (bsel (length ids) b) ids 0) high /\
+      d = bidx Bx b * (base * n * R) + flat base n low (nth (bidx (length ids) b) ids 0) high /\
       s = b * (base * 1 * R) + flat base 1 low 0 high.
   Proof.
     rewrite pick_bw_transpose, pick_fw_spec. split.
@@ -681,9 +681,9 @@ End Pick.
    batches (equal, or one of them 1), and  offset + gy[dim] <= gx[dim]  evaluated in 64 bits
    (unbounded here; the 32-bit wrap of that sum was defect D-slice_bw, repaired in /repo).
    R = product of the axes above dim, per sample. Used by BACKWARD(Slice) and BACKWARD(Split). *)
-Lemma bsel_lt_max Bx By b :
-  0 < Bx -> Bx = By \/ Bx = 1 \/ By = 1 -> b < Nat.max Bx By -> bsel Bx b < Bx.
-Proof. unfold bsel. intros H0 Hc Hb. destruct (Nat.ltb_spec 1 Bx); lia. Qed.
+Lemma bidx_lt_max Bx By b :
+  0 < Bx -> Bx = By \/ Bx = 1 \/ By = 1 -> b < Nat.max Bx By -> bidx Bx b < Bx.
+Proof. unfold bidx. intros H0 Hc Hb. destruct (Nat.ltb_spec 1 Bx); lia. Qed.
 
 Section SliceBw.
   Variables (sx sy : tshape) (dim off base nx ny R Bx By : nat).
@@ -709,18 +709,18 @@ Section SliceBw.
   Theorem slice_bw_spec d s :
     In (d, s) (slice_bw sy sx dim off) <->
     exists low j high b, low < base /\ j < ny /\ high < R /\ b < Nat.max Bx By /\
-      d = bsel Bx b * (base * nx * R) + flat base nx low (j + off) high /\
-      s = bsel By b * (base * ny * R) + flat base ny low j high.
+      d = bidx Bx b * (base * nx * R) + flat base nx low (j + off) high /\
+      s = bidx By b * (base * ny * R) + flat base ny low j high.
   Proof.
     unfold slice_bw. rewrite Hbase, Hnx, Hny, slice_bw_repeat, Hbx, Hby, In_flat_map2. split.
     - intros [b [Hb H]]. apply In_flat_map2 in H. destruct H as [i [Hi H]].
       apply In_map_range in H. destruct H as [j [Hj E]]. injection E as Ed Es. subst d s.
       destruct (run_split base ny j Hb0 Hj) as [low [jj [Hl [Hjj ->]]]].
-      exists low, jj, i, b. rewrite !bsel_skip, Hbx, Hby, Hvx, Hvy. unfold flat.
+      exists low, jj, i, b. rewrite !bidx_skip, Hbx, Hby, Hvx, Hvy. unfold flat.
       repeat split; try assumption; ring.
     - intros [low [j [high [b [Hl [Hj [Hh [Hb [-> ->]]]]]]]]]. exists b. split; [exact Hb|].
       apply In_flat_map2. exists high. split; [exact Hh|]. apply In_map_range. exists (low + base * j).
-      split; [apply run_lt; assumption|]. rewrite !bsel_skip, Hbx, Hby, Hvx, Hvy. unfold flat. f_equal; ring.
+      split; [apply run_lt; assumption|]. rewrite !bidx_skip, Hbx, Hby, Hvx, Hvy. unfold flat. f_equal; ring.
   Qed.
 
   Theorem slice_bw_in_bounds : acc_in_bounds (slice_bw sy sx dim off) (tsize sx) (tsize sy).
@@ -728,9 +728,9 @@ Section SliceBw.
     apply Forall_forall. intros [d s] Hin. cbn [fst snd]. apply slice_bw_spec in Hin.
     destruct Hin as [low [j [high [b [Hl [Hj [Hh [Hb [-> ->]]]]]]]]].
     unfold tsize. rewrite Hvx, Hvy, Hbx, Hby. split; apply sample_lt.
-    - apply (bsel_lt_max Bx By); assumption.
+    - apply (bidx_lt_max Bx By); assumption.
     - apply flat_lt; lia.
-    - apply (bsel_lt_max By Bx); [assumption|lia|lia].
+    - apply (bidx_lt_max By Bx); [assumption|lia|lia].
     - apply flat_lt; lia.
   Qed.
 
@@ -745,7 +745,7 @@ Section SliceBw.
       replace (By * (base * ny * R)) with (By * (R * (base * ny))) by ring.
       apply (seq_blocks snd By (R * (base * ny)) 0). intros b Hb.
       apply (seq_blocks snd R (base * ny) (0 + b * (R * (base * ny)))). intros i Hi.
-      apply map_seq_off. intros j Hj. cbn [snd]. rewrite bsel_skip, Hby, (bsel_same By b Hb). ring.
+      apply map_seq_off. intros j Hj. cbn [snd]. rewrite bidx_skip, Hby, (bidx_same By b Hb). ring.
     Qed.
 
     Lemma slice_bw_src_NoDup : NoDup (map snd (slice_bw sy sx dim off)).
@@ -771,12 +771,12 @@ Section SliceBw.
       rewrite (slice_fw_spec sx sy dim off base nx ny (R * By) Hbasey Hny Hnx slice_same_sy slice_same_sx Hoff Hb0 Hn0).
       replace (Nat.max Bx By) with By by lia. rewrite Hsame. split.
       - intros [low [j [high [b [Hl [Hj [Hh [Hb [-> ->]]]]]]]]]. exists low, j, (high + R * b).
-        rewrite (bsel_same By b Hb), !flat_sample.
+        rewrite (bidx_same By b Hb), !flat_sample.
         repeat split; try assumption. rewrite (Nat.mul_comm R By). pose proof (sample_lt b By high R Hb Hh). lia.
       - intros [low [j [high [Hl [Hj [Hh [_ [-> ->]]]]]]]].
         pose proof (R_pos_of _ 0 _ Hh) as HR. rewrite (Nat.mul_comm R By) in Hh.
         destruct (sample_split R By high HR Hh) as [b [r [Hb [Hr ->]]]].
-        exists low, j, r, b. rewrite (bsel_same By b Hb).
+        exists low, j, r, b. rewrite (bidx_same By b Hb).
         replace (b * R + r) with (r + R * b) by lia. rewrite !flat_sample. auto 10.
     Qed.
 
@@ -813,14 +813,14 @@ Section SliceBw.
       rewrite slice_bw_spec, share_fw_In.
       replace (Nat.max Bx By) with By by lia. rewrite Hone. split.
       - intros [low [j [high [b [Hl [Hj [Hh [Hb [-> ->]]]]]]]]].
-        exists (bsel By b), (flat base ny low j high). split; [apply (bsel_lt_max By Bx); [assumption|lia|lia]|].
+        exists (bidx By b), (flat base ny low j high). split; [apply (bidx_lt_max By Bx); [assumption|lia|lia]|].
         split; [reflexivity|].
         apply (slice_fw_spec sx sy1 dim off base nx ny R Hbasey Hny Hnx slice_fold_sy1 slice_fold_sx Hoff Hb0 Hn0).
-        exists low, j, high. rewrite bsel_one. auto 10.
+        exists low, j, high. rewrite bidx_one. auto 10.
       - intros [b [d0 [Hb [-> Hin]]]].
         apply (slice_fw_spec sx sy1 dim off base nx ny R Hbasey Hny Hnx slice_fold_sy1 slice_fold_sx Hoff Hb0 Hn0) in Hin.
         destruct Hin as [low [j [high [Hl [Hj [Hh [_ [-> ->]]]]]]]].
-        exists low, j, high, b. rewrite bsel_one, (bsel_same By b Hb). auto 10.
+        exists low, j, high, b. rewrite bidx_one, (bidx_same By b Hb). auto 10.
     Qed.
 
     Theorem slice_pair_fold :
@@ -857,22 +857,22 @@ Section InplaceAdd.
 
   Theorem inplace_add_spec d s :
     In (d, s) (inplace_add sx sy) <->
-    exists b i, b < Nat.max Bx By /\ i < V /\ d = bsel By b * V + i /\ s = bsel Bx b * V + i.
+    exists b i, b < Nat.max Bx By /\ i < V /\ d = bidx By b * V + i /\ s = bidx Bx b * V + i.
   Proof.
     unfold inplace_add. rewrite Hvy, Hbx, Hby, In_flat_map2. split.
     - intros [b [Hb H]]. apply In_map_range in H. destruct H as [i [Hi E]]. injection E as Ed Es. subst d s.
-      exists b, i. rewrite !bsel_skip, Hbx, Hby. auto.
+      exists b, i. rewrite !bidx_skip, Hbx, Hby. auto.
     - intros [b [i [Hb [Hi [-> ->]]]]]. exists b. split; [exact Hb|]. apply In_map_range. exists i.
-      split; [exact Hi|]. rewrite !bsel_skip, Hbx, Hby. reflexivity.
+      split; [exact Hi|]. rewrite !bidx_skip, Hbx, Hby. reflexivity.
   Qed.
 
   Theorem inplace_add_in_bounds : acc_in_bounds (inplace_add sx sy) (tsize sy) (tsize sx).
   Proof.
     apply Forall_forall. intros [d s] Hin. cbn [fst snd]. apply inplace_add_spec in Hin.
     destruct Hin as [b [i [Hb [Hi [-> ->]]]]]. unfold tsize. rewrite Hvx, Hvy, Hbx, Hby. split; apply sample_lt.
-    - apply (bsel_lt_max By Bx); [assumption|lia|lia].
+    - apply (bidx_lt_max By Bx); [assumption|lia|lia].
     - exact Hi.
-    - apply (bsel_lt_max Bx By); assumption.
+    - apply (bidx_lt_max Bx By); assumption.
     - exact Hi.
   Qed.
 
@@ -884,7 +884,7 @@ Section InplaceAdd.
       unfold inplace_add, tsize. rewrite Hvy, Hvx, Hbx, Hby.
       replace (Nat.max Bx By) with Bx by lia.
       apply (seq_blocks snd Bx V 0). intros b Hb.
-      apply map_seq_off. intros j Hj. cbn [snd]. rewrite bsel_skip, Hbx, (bsel_same Bx b Hb). lia.
+      apply map_seq_off. intros j Hj. cbn [snd]. rewrite bidx_skip, Hbx, (bidx_same Bx b Hb). lia.
     Qed.
   End FullSrc.
 
@@ -897,11 +897,11 @@ Section InplaceAdd.
     Proof.
       rewrite inplace_add_spec, identity_spec. unfold tsize. rewrite Hvy, Hby, Hsame.
       replace (Nat.max Bx Bx) with Bx by lia. split.
-      - intros [b [i [Hb [Hi [-> ->]]]]]. rewrite (bsel_same Bx b Hb).
+      - intros [b [i [Hb [Hi [-> ->]]]]]. rewrite (bidx_same Bx b Hb).
         split; [apply sample_lt; assumption|auto].
       - intros [Hs [_ ->]]. destruct V as [|V'] eqn:EV; [lia|].
         destruct (sample_split (S V') Bx s ltac:(lia) Hs) as [b [r [Hb [Hr ->]]]].
-        exists b, r. rewrite (bsel_same Bx b Hb). auto.
+        exists b, r. rewrite (bidx_same Bx b Hb). auto.
     Qed.
 
     Theorem inplace_add_pair_same :
@@ -928,10 +928,10 @@ Section InplaceAdd.
       In (d, s) (inplace_add sx sy) <-> In (s, (0, d)) (share_fw Bx V (identity_pairs V)).
     Proof.
       rewrite inplace_add_spec, share_fw_In. replace (Nat.max Bx By) with Bx by lia. rewrite Hone. split.
-      - intros [b [i [Hb [Hi [-> ->]]]]]. rewrite bsel_one, (bsel_same Bx b Hb).
+      - intros [b [i [Hb [Hi [-> ->]]]]]. rewrite bidx_one, (bidx_same Bx b Hb).
         exists b, i. split; [exact Hb|]. split; [reflexivity|]. apply identity_spec. auto.
       - intros [b [d0 [Hb [-> Hin]]]]. apply identity_spec in Hin. destruct Hin as [Hd [_ ->]].
-        exists b, d0. rewrite bsel_one, (bsel_same Bx b Hb). auto.
+        exists b, d0. rewrite bidx_one, (bidx_same Bx b Hb). auto.
     Qed.
 
     Theorem inplace_add_pair_fold :
@@ -1132,8 +1132,8 @@ End BatchConcat.
    R = product of the axes above dim, per sample. *)
 Definition adim (dim : nat) (s : tshape) : nat := tget s dim.
 
-Lemma bsel_skip3 s X R b : b * (thas_batch s * X * R) = bsel (tbatch s) b * (X * R).
-Proof. unfold thas_batch, bsel. destruct (1 <? tbatch s); ring. Qed.
+Lemma bidx_skip3 s X R b : b * (thas_batch s * X * R) = bidx (tbatch s) b * (X * R).
+Proof. unfold thas_batch, bidx. destruct (1 <? tbatch s); ring. Qed.
 
 Lemma concat_loop_length xs : forall k o B base skip R dim,
   length (concat_loop xs k o B base skip R dim) = B * (R * (base * sumn (map (adim dim) xs))).
@@ -1149,7 +1149,7 @@ Lemma concat_loop_In xs : forall k0 o B base skip R dim d k s,
   In (d, (k, s)) (concat_loop xs k0 o B base skip R dim) <->
   exists i sx b r j, nth_error xs i = Some sx /\ k = k0 + i /\ b < B /\ r < R /\ j < base * tget sx dim /\
     d = o + base * sumn (map (adim dim) (firstn i xs)) + (b * R + r) * skip + j /\
-    s = bsel (tbatch sx) b * (base * tget sx dim * R) + r * (base * tget sx dim) + j.
+    s = bidx (tbatch sx) b * (base * tget sx dim * R) + r * (base * tget sx dim) + j.
 Proof.
   induction xs as [|a xs IH]; intros k0 o B base skip R dim d k s; cbn [concat_loop].
   - split; [intros []|]. intros [i [sx [b [r [j [Hn _]]]]]]. destruct i; discriminate.
@@ -1157,13 +1157,13 @@ Proof.
     + intros [[b [Hb H]]|[i [sx [b [r [j [Hn [-> [Hb [Hr [Hj [-> ->]]]]]]]]]]]].
       * apply In_flat_map2 in H. destruct H as [r [Hr H]]. apply In_map_range in H.
         destruct H as [j [Hj E]]. injection E as -> -> ->.
-        exists 0, a, b, r, j. cbn [nth_error firstn map sumn fold_right]. rewrite bsel_skip3.
+        exists 0, a, b, r, j. cbn [nth_error firstn map sumn fold_right]. rewrite bidx_skip3.
         repeat split; try assumption; lia.
       * exists (S i), sx, b, r, j. cbn [nth_error firstn map]. rewrite sumn_cons. unfold adim.
         repeat split; try assumption; lia.
     + intros [[|i] [sx [b [r [j [Hn [-> [Hb [Hr [Hj [-> ->]]]]]]]]]]]; cbn [nth_error firstn map] in *.
       * injection Hn as ->. left. exists b. split; [exact Hb|]. apply In_flat_map2. exists r.
-        split; [exact Hr|]. apply In_map_range. exists j. split; [exact Hj|]. rewrite bsel_skip3.
+        split; [exact Hr|]. apply In_map_range. exists j. split; [exact Hj|]. rewrite bidx_skip3.
         f_equal; [cbn; lia|]. f_equal. lia.
       * right. exists i, sx, b, r, j. rewrite sumn_cons. unfold adim.
         repeat split; try assumption; lia.
@@ -1193,7 +1193,7 @@ Section Concat.
     exists sx low j high b, nth_error xs k = Some sx /\
       low < base /\ j < tget sx dim /\ high < R /\ b < B /\
       d = b * (base * ny * R) + flat base ny low (concat_off k + j) high /\
-      s = bsel (tbatch sx) b * (base * tget sx dim * R) + flat base (tget sx dim) low j high.
+      s = bidx (tbatch sx) b * (base * tget sx dim * R) + flat base (tget sx dim) low j high.
   Proof.
     unfold concat_fw. rewrite Hbase, Hny, concat_repeat, Hby, concat_loop_In. unfold concat_off. split.
     - intros [i [sx [b [r [j [Hn [-> [Hb [Hr [Hj [-> ->]]]]]]]]]]].
@@ -1215,7 +1215,7 @@ Section Concat.
     destruct Hin as [sx [low [j [high [b [Hn [Hl [Hj [Hh [Hb [_ ->]]]]]]]]]]].
     rewrite (nth_map_error tsize xs k sx 0 Hn). destruct (concat_operand sx k Hn) as [Hv Hc].
     unfold tsize. rewrite Hv. apply sample_lt.
-    - apply (bsel_lt _ B b Hb Hc).
+    - apply (bidx_lt _ B b Hb Hc).
     - apply flat_lt; assumption.
   Qed.
 
@@ -1232,7 +1232,7 @@ Section Concat.
       rewrite Hsum in Hk. destruct (prefix_lookup (adim dim) xs kk Hk) as [k [sx [j [Hn [Hj ->]]]]].
       apply in_map_iff.
       exists (b * (base * ny * R) + flat base ny low (concat_off k + j) high,
-              (k, bsel (tbatch sx) b * (base * tget sx dim * R) + flat base (tget sx dim) low j high)).
+              (k, bidx (tbatch sx) b * (base * tget sx dim * R) + flat base (tget sx dim) low j high)).
       split; [reflexivity|]. apply concat_fw_spec. exists sx, low, j, high, b. auto 12.
   Qed.
 
